@@ -2,8 +2,9 @@
   Ledger model — block execution for the non-EVM transaction types, as coded in
   chain/transaction/tx_processor.go (applyTx, buyGas, payIntrinsicGas, handleTx, refundGas,
   chargeForGas, checkSignersWeight, verifyTransactionSigs, ChangeVotesByBalance),
-  candidate_vote_tx.go (CallVoteTx, modifyCandidateVotes, registerCandidate, unRegisterCandidate,
-  refundDeposit, Refund, modifyCandidateInfo, addDepositChangeVotes), box_tx.go (RunBoxTxs) and
+  candidate_vote_tx.go (CallVoteTx, modifyCandidateVotes, buildProfile's defaults, registerCandidate, unRegisterCandidate,
+  refundDeposit, Refund, modifyCandidateInfo with its overlay loop over the tx-supplied profile and the two protected keys
+  it skips, addDepositChangeVotes), box_tx.go (RunBoxTxs) and
   consensus/assembler.go (Finalize: issueTermReward / DivideSalary / calculateSalary, refundCandidateDeposit,
   then ChangeVotesByBalance).  Whether a height is a reward block is the GENERATED `LemoGen.Schedule.IsRewardBlock`.
 
@@ -37,15 +38,67 @@ structure Acct where
   income : Nat := 0             -- profile[incomeAddress]; 0 = absent
   isDeputy : Bool := false      -- its node id is a deputy of the current term (IsNodeDeputy)
   signers : List (Nat × Nat) := []
+  /-- every OTHER key of the candidate profile (key label ↦ value label; strings are labels, 0 = ""): 1 = nodeID,
+      2 = introduction, 3 = host, 4 = port, ≥ 5 = any other key a RegisterTx carried. A map: keys are distinct. -/
+  prof : List (Nat × Nat) := []
   deriving Repr
+
+/-! ### the profile a RegisterTx carries (tx.Data: a JSON object of strings) -/
+
+/-- the tx-supplied profile beyond `flag` (isCandidate) and `income` (incomeAddress) of `Kind.register`:
+    `deposit` = the entry under the PROTECTED key types.CandidateKeyDepositAmount as the TX carries it — `none`: key absent,
+    `some none`: present but not a decimal numeral for big.Int.SetString ("" included), `some (some v)`: the numeral `v`;
+    `others` = every other key (nodeID, introduction, host, port, anything else) with its value, in the order written. -/
+structure TxProfile where
+  deposit : Option (Option Int) := none
+  others : List (Nat × Nat) := []
+  deriving Repr
+
+def keyNodeID : Nat := 1
+def keyIntroduction : Nat := 2
+
+/-- `m[k] = v` on a map kept as an association list with distinct keys -/
+def profSet : List (Nat × Nat) → Nat → Nat → List (Nat × Nat)
+  | [], k, v => [(k, v)]
+  | (k', v') :: r, k, v => if k' = k then (k, v) :: r else (k', v') :: profSet r k v
+
+def profGet : List (Nat × Nat) → Nat → Option Nat
+  | [], _ => none
+  | (k', v') :: r, k => if k' = k then some v' else profGet r k
+
+/-- `buildProfile` on the opaque keys: the JSON object as a Go map (a repeated key: the last one wins), `introduction`
+    defaulted to "" when the tx does not carry it (isCandidate / incomeAddress defaults: `flag` / `income`) -/
+def builtProfile (px : TxProfile) : List (Nat × Nat) :=
+  let m := px.others.foldl (fun acc kv => profSet acc kv.1 kv.2) []
+  match profGet m keyIntroduction with
+  | some _ => m
+  | none => profSet m keyIntroduction 0
+
+/-- the overlay loop of `modifyCandidateInfo` on the opaque keys: `for key, val := range txBuildProfile` writes every key
+    over the stored profile EXCEPT nodeID (and the deposit entry: `depositAfterOverlay`) -/
+def overlay (stored : List (Nat × Nat)) (tx : List (Nat × Nat)) : List (Nat × Nat) :=
+  tx.foldl (fun acc kv => if kv.1 = keyNodeID then acc else profSet acc kv.1 kv.2) stored
+
+/-- the deposit entry of the candidate profile AFTER the overlay loop (what the top-up branch then reads and what is
+    stored). `protectDeposit = true` is the code as it stands: the loop skips types.CandidateKeyDepositAmount, the stored
+    entry stays. `false` = the loop WITHOUT that guard (only nodeID skipped): the tx's own entry replaces the stored one. -/
+def depositAfterOverlay (protectDeposit : Bool) (stored : Option Int) (px : TxProfile) : Option Int :=
+  if protectDeposit then stored
+  else match px.deposit with
+    | none => stored
+    | some v => v
+
+@[simp] theorem depositAfterOverlay_true (stored : Option Int) (px : TxProfile) :
+    depositAfterOverlay true stored px = stored := rfl
 
 inductive Kind where
   | transfer (to : Nat) (value : Int)
   | vote (cand : Nat)
   /-- RegisterTx. `flag` = profile[isCandidate] of the tx data: 1 = "true" or key absent (buildProfile's default),
       2 = "false", 0 = "" (key present, empty), 3 = any other string. `income` = 0: key absent (buildProfile puts
-      tx.From). `nodeDep`: is the node id named in the tx a deputy at this height (fact; matters on a first registration) -/
-  | register (amount : Int) (flag : Nat) (income : Nat) (nodeDep : Bool := false)
+      tx.From). `nodeDep`: is the node id named in the tx a deputy at this height (fact; matters on a first registration).
+      `px`: the rest of the tx-supplied profile — the protected keys (deposit entry, nodeID) and every other key -/
+  | register (amount : Int) (flag : Nat) (income : Nat) (nodeDep : Bool := false) (px : TxProfile := {})
   /-- ModifySignersTx. `tempOk` = `verifyTempAddress(from, to)` passes (to is a temp address built from `from`'s
       last 9 bytes) — a fact about the two addresses' bytes, computed by the harness -/
   | setSigners (target : Nat) (signers : List (Nat × Nat)) (tempOk : Bool := false)
@@ -228,8 +281,14 @@ def refund (c : Ctx) (s : St) (cand : Nat) : St :=
     it was (so `"false"` registered an "unregistered candidate" WITH deposit votes, `""` left the account in the "never
     registered" state with a deposit and votes — it could register again, the first deposit staying in the pool), and a
     modification copied it over the stored flag. The stored state space keeps all four values: accounts stored by the
-    old code are not migrated. -/
-def doRegister (c : Ctx) (s : St) (from' : Nat) (amount : Int) (flag : Nat) (income : Nat) (nodeDep : Bool := false) : Except Err St :=
+    old code are not migrated.
+    The tx-supplied profile `px`: a FIRST registration stores it whole (`SetCandidate` replaces the map) and writes the
+    deposit entry itself (`p[depositAmount] = amount`, whatever the tx said); an unregistration ignores it; a modification
+    overlays it on the stored profile key by key, skipping nodeID and the deposit entry (`overlay`, `depositAfterOverlay`;
+    `protectDeposit = false` is the loop without the deposit guard — NOT the code: used for a refutation only).
+    Not modelled: the length checks of CheckRegisterTxProfile and the 1200-byte limit on the marshalled profile. -/
+def doRegister (c : Ctx) (s : St) (from' : Nat) (amount : Int) (flag : Nat) (income : Nat) (nodeDep : Bool := false)
+    (px : TxProfile := {}) (protectDeposit : Bool := true) : Except Err St :=
   let a := s.accts from'
   let inc := if income = 0 then from' else income
   if c.flagCheck = true ∧ flag ≠ 1 ∧ flag ≠ 2 then .error .invalidProfile
@@ -239,7 +298,8 @@ def doRegister (c : Ctx) (s : St) (from' : Nat) (amount : Int) (flag : Nat) (inc
     else if amount < c.p.minDeposit then .error .depositTooSmall
     else if a.bal < amount then .error .insufficientBalance
     else
-      let s := modAcct s from' (fun a => { a with isCand := flag, deposit := some amount, income := inc, isDeputy := nodeDep })
+      let s := modAcct s from' (fun a => { a with isCand := flag, deposit := some amount, income := inc, isDeputy := nodeDep,
+                                                  prof := builtProfile px })
       let s := transfer s from' c.p.pool amount
       .ok (modAcct s from' (fun a => { a with votes := amount / c.p.depositRate }))
   else if a.isCand = 2 then .error .registerAgain
@@ -257,14 +317,17 @@ def doRegister (c : Ctx) (s : St) (from' : Nat) (amount : Int) (flag : Nat) (inc
       if a.bal < amount then .error .insufficientBalance
       else
         let s := transfer s from' c.p.pool amount
-        match a.deposit with
+        match depositAfterOverlay protectDeposit a.deposit px with
         | none => .error .depositMissing
         | some old =>
           let nw := old + amount
           let add := nw / c.p.depositRate - old / c.p.depositRate
           .ok (modAcct s from' (fun x => { x with isCand := flag, deposit := some nw, income := inc,
-                                                  votes := (if add > 0 then x.votes + add else x.votes) }))
-    else .ok (modAcct s from' (fun a => { a with isCand := flag, income := inc }))
+                                                  votes := (if add > 0 then x.votes + add else x.votes),
+                                                  prof := overlay x.prof (builtProfile px) }))
+    else .ok (modAcct s from' (fun a => { a with isCand := flag, income := inc,
+                                                 deposit := depositAfterOverlay protectDeposit a.deposit px,
+                                                 prof := overlay a.prof (builtProfile px) }))
 
 /-- `ModifyMultisigTx`: weights in 1..100, addresses distinct, at most 100 signers; with from ≠ to the target must be
     a temp address built from the sender (`verifyTempAddress`, fact `tempOk`) that has no signers yet; total ≥ 100;
@@ -285,7 +348,7 @@ def body (c : Ctx) (s : St) (tx : Tx) (initialBal : Int) : Except Err St :=
     if (s.accts tx.sender).bal < v then .error .insufficientBalance
     else if v = 0 then .ok s else .ok (transfer s tx.sender to v)
   | .vote cand => doVote c s tx.sender cand initialBal
-  | .register amt flag inc nd => doRegister c s tx.sender amt flag inc nd
+  | .register amt flag inc nd px => doRegister c s tx.sender amt flag inc nd px
   | .setSigners tg l tok => doSetSigners s tx.sender tg l tok
   | .box => .error .boxInBox
   | .other => .error .txType
